@@ -148,7 +148,12 @@ type Analysis struct {
 	globTypeMemo                     map[*ssa.Global]map[string]bool
 }
 
-func (a *Analysis) Label(l int32) LabelInfo { return a.labels[l] }
+func (a *Analysis) Label(l int32) LabelInfo {
+	if l < 0 || int(l) >= len(a.labels) {
+		return LabelInfo{Kind: 255, Name: "-"}
+	}
+	return a.labels[l]
+}
 
 func (a *Analysis) intern(key string, li LabelInfo) int32 {
 	if id, ok := a.labelIx[key]; ok {
@@ -509,6 +514,10 @@ func structKey(t types.Type) (string, *types.Struct) {
 		return n.Obj().Pkg().Path() + "." + n.Obj().Name(), st
 	}
 	return st.String(), st
+}
+
+func (a *Analysis) fieldWriteCell(structKey, field string) *Cell {
+	return a.cell("fw:"+structKey+"."+field, "field "+structKey+"."+field)
 }
 
 func (a *Analysis) regionContent(region int32, tt, field string) *Cell {
